@@ -59,12 +59,13 @@ Proof.
   - split; auto. intros jn _. unfold appended. simpl. rewrite app_nil_r. reflexivity.
   - destruct (IH (upd (N.to_nat (fst e)) (fun r => r ++ [(i0, snd e)]) T)) as [L G].
     rewrite (upd_length) in L, G. split; auto.
-    intros jn Hj. rewrite (G jn Hj). rewrite (upd_nth _ _ []).
+    intros jn Hj. rewrite (G jn Hj). rewrite (upd_nth (list (N * R)) _ []).
     unfold appended. simpl filter.
     destruct (Nat.eqb (N.to_nat (fst e)) jn) eqn:E.
     + apply Nat.eqb_eq in E. subst jn. rewrite Nat.eqb_refl.
-      replace (Nat.ltb (N.to_nat (fst e)) (length T)) with true by (symmetry; apply Nat.ltb_lt; auto).
-      simpl. rewrite <- app_assoc. reflexivity.
+      simpl.
+      match goal with |- context [if ?b then _ else _] => replace b with true by (symmetry; apply Nat.ltb_lt; exact Hj) end.
+      rewrite <- app_assoc. reflexivity.
     + replace (Nat.eqb jn (N.to_nat (fst e))) with false by (rewrite Nat.eqb_sym; auto). simpl. reflexivity.
 Qed.
 
@@ -81,7 +82,7 @@ Lemma outer_spec : forall (Ms : smat R) i0 (T : smat R),
 Proof.
   induction Ms as [|row Ms IH]; intros i0 T HT.
   - simpl. split; auto. intros jn _ i. destruct (i0 <=? i)%N; [|ring].
-    destruct (N.to_nat (i - i0)); simpl; ring.
+    destruct (N.to_nat (i - i0)); simpl; rewrite ?(get_nil R r0); unfold sv_get; simpl; ring.
   - change (fold_left outer (row :: Ms) (i0, T)) with (fold_left outer Ms (N.succ i0, fold_left (inner i0) row T)).
     destruct (inner_spec i0 row T) as [L1 G1].
     assert (HT1 : forall jn k, In k (keys (nth jn (fold_left (inner i0) row T) [])) -> (k < N.succ i0)%N).
@@ -119,7 +120,8 @@ Proof.
   - intros jn k Hk. rewrite nth_repeat in Hk. destruct Hk.
   - rewrite repeat_length in G. unfold sm_get at 1. unfold sm_row.
     etransitivity; [exact (G (N.to_nat j) Hj i)|].
-    rewrite nth_repeat. rewrite (get_nil R r0). simpl N.leb. cbv iota.
+    rewrite nth_repeat. rewrite (get_nil R r0).
+    replace (0 <=? i)%N with true by (symmetry; apply N.leb_le; lia).
     replace (i - 0)%N with i by lia. rewrite Nnat.N2Nat.id. unfold sm_get, sm_row. ring.
 Qed.
 
